@@ -253,8 +253,12 @@ class G:
                 args = [self.expr(t, max(0, d - 1)) if t == U else ("bytes", r.choice([b"k0", b"k1", b"zz"])) for t in argt]
                 val_v, ok_v = Var(U if vty == ANY else vty), Var(U)
                 self.mvars += [val_v, ok_v]
-                use = ("op", "PopU", [("nary", "Add", [("load", ok_v), ("int", 1)])]) if vty == ANY else \
-                      ("op", "PopU", [("nary", "Add", [("load", ok_v), ("load", val_v)])])
+                if vty == ANY:
+                    use = ("op", "PopU", [("nary", "Add", [("load", ok_v), ("int", 1)])])
+                elif vty == B:
+                    use = ("op", "PopU", [("nary", "Add", [("load", ok_v), ("op", "Len", [("load", val_v)])])])
+                else:
+                    use = ("op", "PopU", [("nary", "Add", [("load", ok_v), ("load", val_v)])])
                 return ("maybe", kind, args, val_v, ok_v, use)
         if c < 0.44 and cfg.maybe and self.operand == 0:
             from recipes import MULTI
@@ -476,6 +480,8 @@ def required_version(n) -> int:
             m = max(m, 5)
         if t in ("pload", "pstore"):
             m = max(m, 5)
+        if t == "gtxn":
+            m = max(m, TXN_FIELDS[n[2]][2], 2 if isinstance(n[1], int) else 3)
         if t == "txn" or t == "global":
             tbl = TXN_FIELDS if t == "txn" else GLOBAL_FIELDS
             m = max(m, tbl[n[1]][2])
